@@ -7,7 +7,7 @@ import struct
 from pathlib import Path
 
 from vf.core import SECTOR, BytesModel, ConcatModel, Model, as_handle, rng_for
-from vf.diskcheck import two_readers, compare_reads, continuation_reads, fault_retry_reads, crossing_count, gen_requests
+from vf.diskcheck import closed_handle_reads, two_readers, compare_reads, continuation_reads, fault_retry_reads, crossing_count, gen_requests
 from vf.monitors import call
 from vf.writers import hds as w
 
@@ -310,6 +310,8 @@ def run(case: dict, ctx) -> dict:
     compare_reads(st, model, reqs, res, MECH)
     if k == "hdd":
         two_readers(st, lambda: hobj.value.open(), model, rng, res, MECH)
+    elif fh is not None and case.get("i", 0) % 4 == 0 and not case.get("big"):
+        closed_handle_reads(st, model, [fh], reqs, rng, res, MECH)
     if fh is not None and fh.mutations:
         res["viol"].append({"what": "handle mutated", "mech": "c09.handle", "detail": {"m": fh.mutations[:3]}})
     states = meta["states"]
